@@ -4,6 +4,7 @@ import HdVerif.Generated.T8b
 import HdVerif.Generated.T8c
 import HdVerif.Generated.T8d
 import HdVerif.Generated.T8e
+import HdVerif.Generated.T8f
 /-! C02: the read side of `highdicom.seg.Segmentation` (`seg/sop.py`).
 
 `Segmentation._get_pixels_by_seg_frame` as written — the validation head, the LABELMAP branch (`need_remap`,
@@ -270,18 +271,26 @@ def missingRefused (st : Stored) (mode : Mode) (keys : List Nat) : Bool :=
   | .maxFrame => keys.any fun k => k > listMax (st.frames.map (·.key))
   | .all => false
 
-/-- by source frame: `Frame numbers are 1-based indices and must be > 0` -/
-def zeroFrameRequested (mode : Mode) (keys : List Nat) : Bool :=
+/-- by source frame: every requested number passes the translated per-number checks (`Gen.frameAdmitted`, T8f:
+positive, and not above the highest referenced frame number unless the caller asserts that missing frames are empty) -/
+def framesAdmitted (st : Stored) (assertMissing : Bool) (keys : List Nat) : Bool :=
+  keys.all fun k =>
+    match frameAdmitted (k : Int) assertMissing (listMax (st.frames.map (·.key)) : Int) with
+    | .ok _ => true
+    | .error _ => false
+
+/-- the entry point refuses the requested stack values -/
+def entryRefuses (st : Stored) (mode : Mode) (assertMissing : Bool) (keys : List Nat) : Bool :=
   match mode with
-  | .maxFrame => keys.any (· == 0)
-  | _ => false
+  | .known ks => !assertMissing && keys.any fun k => !ks.contains k
+  | .maxFrame => !framesAdmitted st assertMissing keys
+  | .all => false
 
 def read (st : Stored) (mode : Mode) (assertMissing : Bool) (rq : Req) : Except ErrKind Out := do
   if rq.segs.isEmpty then .error .value else
   if rq.keys.isEmpty then .error .value else
-  if zeroFrameRequested mode rq.keys then .error .value else
   if !framesUnique st then .error .runtime else
-  if !assertMissing && missingRefused st mode rq.keys then .error .key else
+  if entryRefuses st mode assertMissing rq.keys then .error .key else
   readCore st rq
 
 /-! ### construction: a 4-D stacked 0/1 mask stored as a label map (`_combine_segments` and the look-up that follows it
@@ -303,6 +312,12 @@ def labelPixel (nums : List Nat) (chans : List Nat) : Except ErrKind Nat :=
   | none => .error .index
 
 /-! ### specification-level views of a stored object (used by the theorems, not by the code model) -/
+
+/-- by source frame: a frame number 0 is requested (`Frame numbers are 1-based indices and must be > 0`) -/
+def zeroFrameRequested (mode : Mode) (keys : List Nat) : Bool :=
+  match mode with
+  | .maxFrame => keys.any (· == 0)
+  | _ => false
 
 /-- closed form of one cell of the remapping table (before the cast), `numIn` = `num_input_segments` -/
 def remapEntry (segs : List Nat) (combine relabel : Bool) (bg numIn s : Nat) : Int :=
